@@ -66,7 +66,7 @@ theorem length_erase_mem {l : List Fid} {f : Fid} (h : f ∈ l) : (l.erase f).le
 
 macro "mx_auto" : tactic =>
   `(tactic| (constructor <;> (try simp only [acquire, doLockPark, release, notifyM, doTlfPark, doTlfTimeout, doCvWait,
-      doCvWaitFor, doCvTimeout, doNotifyOne, doNotifyAll, doTlfRepark, PickOk] at *) <;>
+      doCvWaitFor, doCvWaitUntil, doCvTimeout, doNotifyOne, doNotifyAll, doTlfRepark, PickOk] at *) <;>
       grind [upd_apply, mem_rm, rm_ne_nil, woken_wake, wake_not_inMq, wake_not_inCq, wake_ne_tlfParked, wake_ne_cvTimed, wake_tlfLocking,
         inMq_not_woken, inCq_not_woken, inCq_not_inMq, length_erase_mem, erase_nil_of_len_le_one, List.length_append, Pc.woken, Pc.inMq, Pc.inCq]))
 
@@ -78,6 +78,7 @@ def grpOf : Label → Nat
   | .tlfAcq _ => 2 | .tlfPark _ _ _ _ => 2 | .tlfTimeout _ _ => 2 | .tlfRepark _ _ => 2
   | .cvWait _ _ => 3
   | .cvWaitFor _ _ _ _ _ => 4
+  | .cvWaitUntil _ _ _ _ _ => 6
   | .cvTimeout _ _ => 5 | .notifyOne _ _ => 5 | .notifyAll _ => 5
 
 end Yaclib.FiberSync.Mx
